@@ -236,6 +236,42 @@ def validate(v, traces, wd, tag='all'):
   return acc, events
 
 
+def attribution_scenario(wd):
+  """Direct edits made from user files are attributed to those files, whatever they are called."""
+  import importlib.util  # pylint: disable=g-import-not-at-top
+  out = []
+  body = (
+      'import fiddle as fdl\n'
+      'from fiddle._src import tagging\n'
+      'def edit(cfg, leaf):\n'
+      '  cfg.p1 = leaf\n'
+      '  del cfg.p1\n'
+      '  cfg.p1 = leaf\n'
+      '  return cfg\n')
+  fn = pool.get_fn([{'k': 'PK', 'd': True}], 'function')
+  for name in ('experiment_config.py', 'train_history.py', 'my_copying.py', 'model_tagging.py', 'daglish.py',
+               'mutate_buildable.py', 'plain_user_file.py'):
+    path = os.path.join(wd, 'attr_' + name.replace('.py', ''), name)
+    os.makedirs(os.path.dirname(path), exist_ok=True)
+    with open(path, 'w') as f:
+      f.write(body)
+    spec = importlib.util.spec_from_file_location('c16user_' + name.replace('.py', ''), path)
+    mod = importlib.util.module_from_spec(spec)
+    spec.loader.exec_module(mod)
+    cfg = fdl.Config(fn)
+    try:
+      mod.edit(cfg, pool.LEAVES[1])
+    except Exception as e:  # pylint: disable=broad-except
+      out.append(({'clause': 'attribution-user-file', 'file': name, 'observed': 'raise:' + type(e).__name__},
+                  f'editing from {name} raised {type(e).__name__}: {str(e)[:150]}'))
+      continue
+    locs = [e.location.filename for e in cfg.__argument_history__['p1']]
+    if len(locs) != 3 or any(os.path.basename(l) != name for l in locs):
+      out.append(({'clause': 'attribution-user-file', 'file': name, 'observed': 'wrong-location'},
+                  f'edits made in {name} are attributed to {[os.path.basename(l) for l in locs]}'))
+  return out
+
+
 def copy_with_scenario():
   """copy_with: the original's history is untouched, the copy's ends with the new value."""
   out = []
@@ -297,7 +333,7 @@ def main():
       if a != 0:
         raise common.MachineryError('Trace_C16 accepted a trace with a dropped history entry')
     accepted, events = validate(v, traces, os.path.join(wd, 'c2s'))
-    for f, msg in copy_with_scenario():
+    for f, msg in copy_with_scenario() + attribution_scenario(wd):
       v.mismatch(f, {'message': msg})
   nontrivial = sum(1 for t in traces for e in t['events'] if e['delta'])
   v.coverage.update({
